@@ -80,7 +80,7 @@ def make_case(rng, i, ctx):
     corr_mode = 'none'
     if kind == 'shared' and m <= 9 and (rng.random() < 0.6 or i % 5 == 0):
         corr_mode = str(rng.choice(['estimated', 'supplied']))
-    yall = fitgen.data_points(rng, truth, kind, m, nsamp=60 if corr_mode != 'none' else 40)
+    yall = fitgen.data_points(rng, truth, kind, m, nsamp=60 if corr_mode != 'none' else 40, vary_n=bool(kind == 'shared' and rng.random() < 0.5))
     [o.gamma_method() for o in yall]
     ys, pos = {}, 0
     for key in sorted(keys):
@@ -197,6 +197,64 @@ def make_case(rng, i, ctx):
     return cases
 
 
+def corrfit_cases(rng, n, ctx):
+    """the Corr.fit entry point: inclusive fit range, undefined timeslices skipped, stored plateau range as the default range,
+    weights frozen at the errors the user's own analysis (non-default parameters) left on the correlator"""
+    cases = []
+    i = 0
+    while len(cases) < 2 * n and i < 10 * n:
+        i += 1
+        T = int(rng.integers(6, 12))
+        npar = int(rng.integers(1, 3))
+        ptrue = [float(np.round(rng.uniform(0.5, 2.0), 2)), float(np.round(rng.uniform(-0.2, 0.2), 2))][:npar]
+        idl = gen.make_idl(rng, str(rng.choice(['contig', 'strided'])), 80)
+        content = []
+        for t in range(T):
+            if t > 0 and rng.random() < 0.2:
+                content.append(None)
+                continue
+            v = ptrue[0] + (ptrue[1] * t if npar == 2 else 0.0)
+            content.append(pe.Obs([v + 0.05 * gen.chain_data(rng, len(idl), mean=0.0, sigma=1.0, tau=3.0)], ['E|r1'], idl=[idl]))
+        c = pe.Corr(content)
+        gmkw = [{}, {'S': 3.5}, {'S': 1.0}, {'tau_exp': 4.0, 'N_sigma': 2}][int(rng.integers(0, 4))]
+        c.gamma_method(**gmkw)
+        lo = int(rng.integers(0, T - 3))
+        hi = int(rng.integers(lo + 2, T))
+        pts = [t for t in range(lo, hi + 1) if c.content[t] is not None]
+        if len(pts) <= npar:
+            continue
+        ys = [c.content[t][0] for t in pts]
+        before = [rat(float(o.dvalue)) for o in ys]
+        entry = str(rng.choice(['range', 'prange']))
+        if npar == 1:
+            def f(a, t):
+                return a[0] + 0.0 * t
+            expr = gen.var(1)
+        else:
+            def f(a, t):
+                return a[0] + a[1] * t
+            expr = gen.node('add', gen.var(1), gen.node('mul', gen.var(2), gen.var(3)))
+        try:
+            if entry == 'range':
+                res = _quiet(lambda: c.fit(f, [lo, hi], silent=True))
+            elif entry == 'prange':
+                c.set_prange([lo, hi])
+                res = _quiet(lambda: c.fit(f, silent=True))
+        except Exception as e:  # noqa: BLE001
+            cases.append({'id': 'cfit-%04d-%s' % (i, entry), 'ev': 'fit', 'res': {'k': 'exc', 't': type(e).__name__}})
+            continue
+        after = [rat(float(o.dvalue)) for o in ys]
+        cid = 'cfit-%04d-T%d-n%d-%s-%s' % (i, T, npar, entry, '_'.join('%s%s' % kv for kv in sorted(gmkw.items())) or 'default')
+        rec = fitgen.fit_result_record(res, False)
+        rec['ncov'] = int(min(o.N for o in ys))
+        cases.append({'id': cid, 'ev': 'fit', 'mode': 'fit', 'n': npar, 'linear': True, 'method': 'Levenberg-Marquardt', 'numgrad': False, 'exprs': [gen.strip(expr)],
+                      'points': [{'e': 1, 'x': [rat(float(t))]} for t in pts], 'y': [project_obs(o) for o in ys],
+                      'W': {'k': 'diag', 'dy': before}, 'priors': [], 'res': rec})
+        cases.append({'id': cid + '-frame', 'ev': 'frame', 'what': 'Corr.fit leaves the errors of the correlator as the caller computed them', 'before': before, 'after': after})
+        ctx.nontrivial.add(('cfit', T, npar, entry, tuple(sorted(gmkw))))
+    return cases
+
+
 def run(ctx):
     rng = np.random.default_rng(ctx.seed)
     want = 70 if ctx.quick else 900
@@ -211,5 +269,6 @@ def run(ctx):
             continue
         cases += r
     ctx.extra['discarded_nonconverged'] = discarded
+    cases += corrfit_cases(rng, 12 if ctx.quick else 150, ctx)
     ctx.sample({'id': cases[0]['id'], 'model_expressions': cases[0].get('exprs'), 'points': cases[0].get('points', [])[:3]})
     ctx.validate('FitTrace', cases, timeout=3000)
